@@ -185,7 +185,7 @@ func oracleC08(e *Env, i int) *Violation {
 // the reference model of C02 says, and therefore the same for the open handle and for a handle
 // obtained by loading the same bytes (C08).  preBytes: the file before the add.
 func oracleAddSlot(e *Env, preBytes []byte, prop string, i int, op *Op, res string) *Violation {
-	if op.Kind != "add" || !strings.HasPrefix(res, "res ok") || preBytes == nil || e.desync {
+	if op.Kind != "add" || preBytes == nil || e.desync {
 		return nil
 	}
 	_, pre, err := decodeRaw(preBytes)
@@ -193,9 +193,13 @@ func oracleAddSlot(e *Env, preBytes []byte, prop string, i int, op *Op, res stri
 		return nil
 	}
 	inUse := map[uint32]bool{}
+	livePrimary := false
 	for _, d := range pre {
 		if d.Used {
 			inUse[d.ID] = true
+			if d.DT == 0x4004 && len(d.Extra) >= 8 && le32(d.Extra[4:]) == 2 {
+				livePrimary = true
+			}
 		}
 	}
 	want := -1
@@ -204,6 +208,20 @@ func oracleAddSlot(e *Env, preBytes []byte, prop string, i int, op *Op, res stri
 			want = k
 			break
 		}
+	}
+	if prop == "C02" && strings.HasPrefix(res, "res err") && op.Valid && want >= 0 {
+		// valid input, a usable slot, and (for a primary partition) no live primary partition: the
+		// reference model accepts — whoever wrote the image, whatever its unused slots still hold
+		wantsPrimary := false
+		for _, o := range op.DI.Opts {
+			wantsPrimary = wantsPrimary || (o.Kind == "part" && o.J == 2)
+		}
+		if !(wantsPrimary && livePrimary) {
+			return &Violation{Prop: "C02", Key: "C02:allowed-add-rejected", What: fmt.Sprintf("an add the reference model allows (valid input, slot %d usable, no live primary partition in the way) was refused: %s", want, res), Op: i}
+		}
+	}
+	if !strings.HasPrefix(res, "res ok") {
+		return nil
 	}
 	_, post, err := decodeRaw(e.storeBytes())
 	if err != nil || len(post) != len(pre) {
